@@ -2024,6 +2024,11 @@ class Store:
                 if path_step not in self.inner:
                     self.inner[path_step] = Store(
                         {}, outer=self, source=source)
+                    if self.branch_emit is not None:
+                        # the new node joins a branch that is covered
+                        # by a branch-level flag
+                        self.inner[path_step].branch_emit = self.branch_emit
+                        self.inner[path_step].emit = self.branch_emit
 
                 return self.inner[path_step]._establish_path(
                     remaining,
